@@ -314,6 +314,15 @@ class Backend(ABC):
             rule.set_conversion_result(finalized_queries)
             rule.set_conversion_states(states)
             if rule._output:
+                if finalized_queries is queries:
+                    # The stored result is kept unfinalized for usage as correlation subquery, but
+                    # the queries emitted for the rule itself must be finalized like any other.
+                    return [
+                        self.finalize_query(
+                            rule, query, index, states[index], output_format or self.default_format
+                        )
+                        for index, query in enumerate(queries)
+                    ]
                 return finalized_queries
             else:
                 return []
